@@ -26,19 +26,20 @@ theorem lookup_filter_key (c : Cache P) (f : Node P → Bool) (k : Node P) :
       · have hf' : f k' = false := by simpa using hf
         simp only [List.filter_cons, hf', Bool.false_eq_true, if_false, lookup, hk]; exact ih
 
-/-- after a purge: nothing marked is left, everything else is as before, nothing is marked -/
-theorem purge_spec (s : St P) (k : Node P) :
-    (purge s).inval = [] ∧ (purge s).stack = s.stack ∧
-    lookup (purge s).cache k = if k ∈ s.inval then none else lookup s.cache k := by
+/-- after a purge: no slot of a marked node is left, every other slot is as before, nothing is
+    marked -/
+theorem purge_spec (sys : Sys P) (s : St P) (k : Node P) :
+    (purge sys s).inval = [] ∧ (purge sys s).stack = s.stack ∧
+    lookup (purge sys s).cache k = if k ∈ s.inval.map sys.slot then none else lookup s.cache k := by
   refine ⟨rfl, rfl, ?_⟩
   unfold purge
   simp only
-  rw [lookup_filter_key s.cache (fun k => !(s.inval.contains k)) k]
-  by_cases h : k ∈ s.inval
+  rw [lookup_filter_key s.cache (fun k => !((s.inval.map sys.slot).contains k)) k]
+  by_cases h : k ∈ s.inval.map sys.slot
   · simp [h]
   · simp [h]
 
-theorem purge_of_inval_nil (s : St P) (h : s.inval = []) : purge s = s := by
+theorem purge_of_inval_nil (sys : Sys P) (s : St P) (h : s.inval = []) : purge sys s = s := by
   unfold purge
   rw [h]
   cases s
@@ -53,12 +54,14 @@ theorem lookup_store_ne (sys : Sys P) (c : Cache P) (k k' : Node P) (x : Val) (g
 
 -- nested runs never store a node that is on the stack (being computed)
 mutual
-theorem run_keeps_stack_nodes (sys : Sys P) : ∀ n s v p r g s', run sys n s v p = some (r, g, s') →
+theorem run_keeps_stack_nodes (sys : Sys P) (hid : ∀ v p, sys.ckey v p = p) : ∀ n s v p r g s', run sys n s v p = some (r, g, s') →
     ∀ k ∈ s.stack, lookup s'.cache k = lookup s.cache k
   | 0, _, _, _, _, _, _, h => by simp [run] at h
   | n+1, s, v, p, r, g, s', h => by
     intro k hk
+    have hslot : sys.slot (v, p) = (v, p) := by simp [Sys.slot, hid]
     unfold run at h
+    rw [hslot] at h
     split at h
     · simp only [Option.some.injEq, Prod.mk.injEq] at h
       obtain ⟨_, _, rfl⟩ := h
@@ -77,66 +80,69 @@ theorem run_keeps_stack_nodes (sys : Sys P) : ∀ n s v p r g s', run sys n s v 
             · split at h
               · cases h
               · rename_i er g1 s1 hr
-                have ih := runE_keeps_stack_nodes sys n _ _ _ _ _ hr k (List.mem_cons_of_mem _ hk)
+                have ih := runE_keeps_stack_nodes sys hid n _ _ _ _ _ hr k (List.mem_cons_of_mem _ hk)
                 simp only [Option.some.injEq, Prod.mk.injEq] at h; obtain ⟨_, _, rfl⟩ := h
                 exact ih
               · rename_i x g1 s1 hr
-                have ih := runE_keeps_stack_nodes sys n _ _ _ _ _ hr k (List.mem_cons_of_mem _ hk)
+                have ih := runE_keeps_stack_nodes sys hid n _ _ _ _ _ hr k (List.mem_cons_of_mem _ hk)
                 simp only [Option.some.injEq, Prod.mk.injEq] at h; obtain ⟨_, _, rfl⟩ := h
                 simp only
                 rw [lookup_store_ne sys _ _ _ _ _ hne]; exact ih
-theorem runE_keeps_stack_nodes (sys : Sys P) : ∀ n s e r g s', runE sys n s e = some (r, g, s') →
+theorem runE_keeps_stack_nodes (sys : Sys P) (hid : ∀ v p, sys.ckey v p = p) : ∀ n s e r g s', runE sys n s e = some (r, g, s') →
     ∀ k ∈ s.stack, lookup s'.cache k = lookup s.cache k
   | _, s, .const c, r, g, s', h => by
     simp only [runE, Option.some.injEq, Prod.mk.injEq] at h; obtain ⟨_, _, rfl⟩ := h; intro k hk; rfl
   | _, s, .bad, r, g, s', h => by
     simp only [runE, Option.some.injEq, Prod.mk.injEq] at h; obtain ⟨_, _, rfl⟩ := h; intro k hk; rfl
   | n, s, .ref v p, r, g, s', h => by
-    simp only [runE] at h; exact run_keeps_stack_nodes sys n s v p r g s' h
+    simp only [runE] at h; exact run_keeps_stack_nodes sys hid n s v p r g s' h
   | n, s, .fail id a, r, g, s', h => by
     simp only [runE] at h
     split at h
     · simp only [Option.some.injEq, Prod.mk.injEq] at h; obtain ⟨_, _, rfl⟩ := h; intro k hk; rfl
-    · exact runE_keeps_stack_nodes sys n s a r g s' h
+    · exact runE_keeps_stack_nodes sys hid n s a r g s' h
   | n, s, .op1 o a, r, g, s', h => by
     simp only [runE] at h
     split at h
     · cases h
     · rename_i e g1 s1 ha
       simp only [Option.some.injEq, Prod.mk.injEq] at h; obtain ⟨_, _, rfl⟩ := h
-      exact runE_keeps_stack_nodes sys n s a _ _ _ ha
+      exact runE_keeps_stack_nodes sys hid n s a _ _ _ ha
     · rename_i x g1 s1 ha
       simp only [Option.some.injEq, Prod.mk.injEq] at h; obtain ⟨_, _, rfl⟩ := h
-      exact runE_keeps_stack_nodes sys n s a _ _ _ ha
+      exact runE_keeps_stack_nodes sys hid n s a _ _ _ ha
   | n, s, .op2 o a b, r, g, s', h => by
     simp only [runE] at h
     split at h
     · cases h
     · rename_i e g1 s1 ha
       simp only [Option.some.injEq, Prod.mk.injEq] at h; obtain ⟨_, _, rfl⟩ := h
-      exact runE_keeps_stack_nodes sys n s a _ _ _ ha
+      exact runE_keeps_stack_nodes sys hid n s a _ _ _ ha
     · rename_i x g1 s1 ha
-      have h1 := runE_keeps_stack_nodes sys n s a _ _ _ ha
+      have h1 := runE_keeps_stack_nodes sys hid n s a _ _ _ ha
       have hs1 := runE_stack sys n s a _ _ _ ha
       split at h
       · cases h
       · rename_i e g2 s2 hb
         simp only [Option.some.injEq, Prod.mk.injEq] at h; obtain ⟨_, _, rfl⟩ := h
         intro k hk
-        rw [runE_keeps_stack_nodes sys n s1 b _ _ _ hb k (hs1 ▸ hk), h1 k hk]
+        rw [runE_keeps_stack_nodes sys hid n s1 b _ _ _ hb k (hs1 ▸ hk), h1 k hk]
       · rename_i y g2 s2 hb
         simp only [Option.some.injEq, Prod.mk.injEq] at h; obtain ⟨_, _, rfl⟩ := h
         intro k hk
-        rw [runE_keeps_stack_nodes sys n s1 b _ _ _ hb k (hs1 ▸ hk), h1 k hk]
+        rw [runE_keeps_stack_nodes sys hid n s1 b _ _ _ hb k (hs1 ▸ hk), h1 k hk]
 end
 
 /-- no value is recorded for a node whose computation did not complete -/
-theorem run_error_no_store (sys : Sys P) (n : Nat) (s : St P) (v : Nat) (p : P) (er : Err) (g : Bool) (s' : St P)
+theorem run_error_no_store (sys : Sys P) (hid : ∀ v p, sys.ckey v p = p) (n : Nat) (s : St P) (v : Nat) (p : P)
+    (er : Err) (g : Bool) (s' : St P)
     (h : run sys n s v p = some (.error er, g, s')) : lookup s'.cache (v, p) = lookup s.cache (v, p) := by
   cases n with
   | zero => simp [run] at h
   | succ n =>
+    have hslot : sys.slot (v, p) = (v, p) := by simp [Sys.slot, hid]
     unfold run at h
+    rw [hslot] at h
     split at h
     · simp only [Option.some.injEq, Prod.mk.injEq] at h; obtain ⟨h1, _, _⟩ := h; cases h1
     · split at h
@@ -150,7 +156,7 @@ theorem run_error_no_store (sys : Sys P) (n : Nat) (s : St P) (v : Nat) (p : P) 
             · split at h
               · cases h
               · rename_i er' g1 s1 hr
-                have ih := runE_keeps_stack_nodes sys n _ _ _ _ _ hr (v, p) List.mem_cons_self
+                have ih := runE_keeps_stack_nodes sys hid n _ _ _ _ _ hr (v, p) List.mem_cons_self
                 simp only [Option.some.injEq, Prod.mk.injEq] at h; obtain ⟨_, _, rfl⟩ := h
                 exact ih
               · simp only [Option.some.injEq, Prod.mk.injEq] at h; obtain ⟨h1, _, _⟩ := h; cases h1
